@@ -58,7 +58,7 @@ man = {
               "baseline_off_cmd": "cmake -S /repo -B /repo/_build -G Ninja -DBUILD_TESTS=ON -DBUILD_DOC=OFF >/dev/null && cmake --build /repo/_build && ctest --test-dir /repo/_build -j8 --timeout 900",
               "source_commits": [], "add_only": True},
     "engines": [{"name": "cdnsverif", "path": "cdnsverif/", "serves_properties": [c["property_id"] for c in checks],
-                 "kind_free_text": "clang-14 libTooling extractor (tool/cdns-facts.cc) producing a JSON mini-IR of the type-checked program; flattening of intermediate base classes; IR normalisation (inlining of helpers/lambdas/forwarders/tail delegation, forward substitution, conditional lifting, algorithm loops, *p++ splitting, local memo elimination in both spellings, scope guards written out on the normal and the exceptional path, scalar replacement of helper objects, flow-sensitive folding of local flags with jump threading, store splitting, aggregate projection) with controls checked on every run; positive controls for zero-expected rules (tu/rule_controls.cpp); python3 rule engine deciding per-property obligations; exit 0/1/2"}],
+                 "kind_free_text": "clang-14 libTooling extractor (tool/cdns-facts.cc) producing a JSON mini-IR of the type-checked program; flattening of intermediate base classes; IR normalisation (inlining of helpers/lambdas/forwarders/tail delegation, forward substitution, conditional lifting, algorithm loops, *p++ splitting, local memo elimination in both spellings, scope guards written out on the normal and the exceptional path, scalar replacement of helper objects, flow-sensitive folding of local flags with jump threading, store splitting, build-aside-and-commit forwarding, aggregate projection); class-level analyses of derived members (eager / lazy / keyed caches verified and rewritten away, stale ones reported) and of validated string caches with controls checked on every run; positive controls for zero-expected rules (tu/rule_controls.cpp); python3 rule engine deciding per-property obligations; exit 0/1/2"}],
     "checks": checks,
     "not_applicable": na,
     "notes": "Static analysis only. exit 2 = ANALYSIS-BROKEN (never a VIOLATION line). known_findings.json lists genuine defects; fix: commits in /repo are recorded there as fixed.",
